@@ -83,7 +83,10 @@ def gen(rng, tier):
     for e in ['18446744073709551615', '18446744073709551616', '99999999999', '65535', '65536', '0' * 40 + '7', '4294967296']:
         yield Case('simple ' + cps('x^' + e), 'bigexp', 'x^' + e)
         yield Case('inter ' + cps('x^' + e), 'bigexp', 'x^' + e)
-    for s in ['1' * 400 + 'x', '0.' + '0' * 400 + '1x', 'x' * 64, '+' * 64, '-' * 63 + 'x', '(' * 64]:
+    big = '9' * 308
+    for s in ['1' * 400 + 'x', '0.' + '0' * 400 + '1x', 'x' * 64, '+' * 64, '-' * 63 + 'x', '(' * 64,
+              big + 'x+' + big + 'x', big + 'x-' + big + 'x', big + '+' + big, big + '/.1x', big + '/' + big + '0x', '1/' + '1' * 400 + 'x',
+              'x^' + big + 'x^' + big, 'x^' + '1' * 400, 'x^1/' + '1' * 400, 'x^' + big + '/.1', '-' + '1' * 400]:
         yield Case('simple ' + cps(s), 'long', s)
         yield Case('inter ' + cps(s), 'long', s)
 
@@ -338,10 +341,6 @@ def judge(case, impl):
         coefs = [hex2f(h) for h in t[3:3 + n]]
         g = read_simple(text)
         if any(c != c or c in (float('inf'), float('-inf')) for c in coefs):
-            # only a decimal beyond the f64 range may overflow; anything else is a misreading
-            if g is not None and all(abs(sum(g[1].get(k, []), Fraction(0))) >= FMAX or abs(c) != float('inf')
-                                     for k, c in enumerate(coefs)) and not any(c != c for c in coefs):
-                return None
             return 'accepted text produced a non-finite coefficient'
         if g is not None:
             gvar, powers = g
@@ -385,9 +384,6 @@ def judge(case, impl):
                 if c != c or any(e != e for _, e in vs):
                     return 'accepted text produced a NaN'
                 if abs(c) == float('inf') or any(abs(e) == float('inf') for _, e in vs):
-                    if (abs(c) == float('inf')) == (abs(ec) >= FMAX) and all(
-                            (abs(e) == float('inf')) == (abs(ev.get(n, 0)) >= FMAX) for n, e in vs):
-                        continue          # a decimal beyond the f64 range overflows; not a misreading
                     return 'accepted text produced an infinite coefficient or exponent'
                 if abs(Fraction(c) - ec) > 2 * EPS * abs(ec) + Fraction(1, 2 ** 1074):
                     return 'a coefficient differs from the documented reading of the text'
